@@ -758,6 +758,8 @@ def _rs_case(kinds):
                      Tref=rng.choice([100., 80., 150.]), M0=rng.choice([1.2, 1.05, 1.3]))
         if kind == 'ie':
             p['M0'] = rng.choice([1.4, 1.2, 1.3])
+            if rng.random() < 0.6:
+                p['Z'] = rng.choice([2.0, 5.0, 0.5])     # ionisation: at Z = 1 the ion and electron weights coincide (seeded C03-8)
         if kind != 'ie' and rng.random() < 0.3:
             p['rho0'] = rng.choice([1.0, 2.0, 0.5])
         return dict(kind=kind, params=p, frac=sorted(rng.random() for _ in range(6)),
@@ -908,6 +910,9 @@ def _rs_eos_check(c):
     e = float(np.max(np.abs(s.Sound_Speed * s.Mach / s.Speed - 1)))
     if not e <= 1e-12:
         return dict(site='RadShock:%s:sound-speed' % c['kind'], detail='relative error %.3e' % e)
+    e = float(np.max(np.abs(s.Sound_Speed ** 2 * s.Density / (s.gamma * s.Pressure) - 1)))
+    if not e <= 1e-11:
+        return dict(site='RadShock:%s:c2=gamma*p/rho' % c['kind'], detail='relative error %.3e (params %r)' % (e, c['params']))
     if O.relerr(float(s.sound), _rs_c(s)) > 1e-14:
         return dict(site='RadShock:%s:sound' % c['kind'], detail='solver.sound = %r, sqrt(gamma (gamma-1) Cv Tref) = %r' % (s.sound, _rs_c(s)))
     return None
